@@ -292,7 +292,9 @@ def family_report(ctx, st, props, consts, corr_name, mism, bad, unit_errors, sta
     bad: (unit, op, go output, sig, text)   mism: (unit, op, model, go)   unit_errors: (unit, text)"""
     pid = ctx.pid
     thm = st.thm
-    for name, l, g, sig, what in bad[:40]:
+    for name, l, g, sig, what in bad:      # known findings do not use up the report budget of fresh violations
+        if len(ctx.violations) >= 40:
+            break
         ctx.violation(sig, f"{name}: {what}: {trunc(l, 140)} -> {trunc(g, 140)}", {"unit": name, "op": l, "go": g})
     if not ctx.violations:
         cerr = [f"{n}: {st.cres[n]}" for n in consts if st.cres.get(n)]
